@@ -333,8 +333,8 @@ func (m *repoManager) Shutdown() {
 // MarshalJSON returns JSON of object where each repo is a property with root UUID name
 // and value corresponding to repo info.
 func (m *repoManager) MarshalJSON() ([]byte, error) {
-	repos := make(map[dvid.UUID]*repoT, len(m.repoToUUID))
 	m.idMutex.RLock()
+	repos := make(map[dvid.UUID]*repoT, len(m.repoToUUID))
 	for _, uuid := range m.repoToUUID {
 		m.repoMutex.RLock()
 		repos[uuid] = m.repos[uuid]
@@ -1191,6 +1191,8 @@ func (m *repoManager) saveRepoByVersion(v dvid.VersionID) error {
 
 // types returns a list of TypeService needed for this set of repositories
 func (m *repoManager) types() (map[dvid.URLString]TypeService, error) {
+	m.idMutex.RLock()
+	defer m.idMutex.RUnlock()
 	m.repoMutex.RLock()
 	defer m.repoMutex.RUnlock()
 
@@ -1281,12 +1283,17 @@ func (m *repoManager) getBranchVersion(uuid dvid.UUID, name string) (dvid.UUID, 
 	var r *repoT
 	var err error
 	if uuid == dvid.NilUUID {
-		if len(m.repoToUUID) > 1 {
+		m.idMutex.RLock()
+		numRepos := len(m.repoToUUID)
+		m.idMutex.RUnlock()
+		if numRepos > 1 {
 			return dvid.NilUUID, 0, fmt.Errorf("UUID must be specified if more than one repo exists")
 		}
+		m.repoMutex.RLock()
 		for _, r = range m.repos {
 			break
 		}
+		m.repoMutex.RUnlock()
 	} else {
 		r, err = m.repoFromUUID(uuid)
 		if err != nil {
@@ -1319,11 +1326,12 @@ func (m *repoManager) getBranchVersion(uuid dvid.UUID, name string) (dvid.UUID, 
 		branchUUID, found = m.branchToUUID[string(r.uuid)+name]
 		m.branchMutex.RUnlock()
 		if !found {
-			dvid.Infof("Branch map: %v\n", m.branchToUUID)
 			return dvid.NilUUID, 0, fmt.Errorf("branch %q not found in repo %q", name, uuid)
 		}
 	}
+	m.idMutex.RLock()
 	branchV, found := m.uuidToVersion[branchUUID]
+	m.idMutex.RUnlock()
 	if !found {
 		err := fmt.Errorf("branch %q had leaf UUID (%s) without a version ID", name, branchUUID)
 		return dvid.NilUUID, 0, err
@@ -1720,14 +1728,13 @@ func (m *repoManager) hideBranch(uuid dvid.UUID, branch string) error {
 	m.repoMutex.Lock()
 	r.Lock()
 	del_set := make(map[dvid.VersionID]struct{})
+	del_uuids := make(map[dvid.VersionID]dvid.UUID)
 	for v, node := range r.dag.nodes {
 		if node.branch == branch {
 			del_set[v] = struct{}{}
-			del_uuid := m.versionToUUID[v]
-			delete(m.versionToUUID, v)
-			delete(m.uuidToVersion, del_uuid)
+			del_uuids[v] = node.uuid
 			delete(r.dag.nodes, v)
-			delete(m.repos, del_uuid)
+			delete(m.repos, node.uuid)
 		}
 	}
 	for _, node := range r.dag.nodes {
@@ -1743,6 +1750,16 @@ func (m *repoManager) hideBranch(uuid dvid.UUID, branch string) error {
 	}
 	r.Unlock()
 	m.repoMutex.Unlock()
+
+	// The id maps have their own mutex, which newVersion takes while it holds the repo's lock:
+	// it is taken here only after the repo's lock was released.
+	m.idMutex.Lock()
+	for v, del_uuid := range del_uuids {
+		delete(m.versionToUUID, v)
+		delete(m.uuidToVersion, del_uuid)
+	}
+	m.idMutex.Unlock()
+
 	m.cacheBranchHeads(r)
 	if err := r.save(); err != nil {
 		return err
@@ -2301,7 +2318,9 @@ func (m *repoManager) setSync(d dvid.Data, syncs dvid.UUIDSet, replace bool) err
 		}
 
 		for uuid := range newSyncs {
+			m.idMutex.RLock()
 			syncedData, found := m.dataByUUID[uuid]
+			m.idMutex.RUnlock()
 			if !found || syncedData.IsDeleted() {
 				return ErrInvalidDataUUID
 			}
